@@ -287,3 +287,16 @@ CHECKS["C18"] = {
         {"pkg": "gabikeys", "fuzz": "FuzzVF_C18_PrivateKey", "run": "FuzzVF_C18_PrivateKey", "tiers": ["thorough"], "seconds": {"thorough": 120}, "workers": 8},
     ],
 }
+
+CHECKS["C20"] = {
+    "level": "exploration",
+    "technique": "stress scripts with seed-drawn plans run under the Go race detector over a grid of goroutine counts and GOMAXPROCS values; oracles = race reports whose stacks contain gabi frames (grouped by racing sites), sequential validity and randomiser-uniqueness of every concurrently produced proof/key, and an exact keystream-partition check of the counter-mode generator (every read = run of consecutive counters, runs disjoint, union = [0, final counter))",
+    "level_text": "Shared objects the library treats as shareable (one credential incl. first-time cache preparation, one public key and signed accumulator, the process-wide generator, parallel key generation and key-proof construction) are exercised concurrently; any race report involving library code, any invalid or repeated result and any keystream block handed out twice or skipped is a violation.",
+    "level_note": "Schedules are sampled by the Go scheduler, not enumerated, and are not seed-reproducible: the plan and the race report are the replay artefacts. A race needing a rare interleaving can be missed.",
+    "rule": ("case = one repetition of a stress script (plan drawn from the seed) at one (goroutines, GOMAXPROCS) point. Non-trivial: runs in which >= 2 goroutines overlapped on the shared object; distinct by (script, repetition, goroutines, GOMAXPROCS, seed)."),
+    "assumptions": ["Go race detector (happens-before; reports only races that occur in the explored schedules)"],
+    "units": [
+        {"pkg": "root", "run": "TestVF_C20_Credential", "race": True, "shards": {"quick": 4, "thorough": 8}, "timeout": {"quick": 900, "thorough": 3400}},
+        {"pkg": "internal__common", "run": "TestVF_C20_Keystream", "race": True, "shards": {"quick": 2, "thorough": 4}, "timeout": {"quick": 600, "thorough": 3400}},
+    ],
+}
